@@ -467,6 +467,23 @@ def _plain(rnd, size=(1, 4), palette=None, pre=True, app=True):
     return make_token(rnd, [], n_atoms=rnd.randint(*size), palette=palette, kw_pre=pre, kw_app=app)
 
 
+def _prefix_with_desc(rnd, d, o, pal):
+    """plain token with a written descriptor of bond order o at its chain end (`C=[$]`)"""
+    for _ in range(80):
+        tok = make_token(rnd, [], n_atoms=rnd.randint(1, 3), palette=pal, multi_p=0.0, ring_p=0.0)
+        n = tok.root
+        while n.children and isinstance(n.children[-1][1], Node):
+            n = n.children[-1][1]
+        if n.free() < o:
+            continue
+        n.children.append((o, d))
+        n.used += o
+        render_token(tok)
+        if chem_ok(tok):
+            return tok
+    raise RuntimeError("could not build prefix")
+
+
 def token_mass_guess(tok):
     m = {"C": 12.011, "c": 12.011, "N": 14.007, "n": 14.007, "O": 15.999, "o": 15.999, "S": 32.06, "s": 32.06, "P": 30.97, "F": 19.0, "Cl": 35.45,
          "Br": 79.9, "I": 126.9, "B": 10.81, "[Si]": 28.09, "[N+]": 14.007, "[O-]": 15.999, "[13C]": 13.003, "[C@H]": 12.011, "[SiH2]": 28.09,
@@ -476,7 +493,7 @@ def token_mass_guess(tok):
 
 
 ARCHETYPES = ["homo", "random", "block", "alternating", "stepgrowth", "star", "graft", "hyper", "endinit2", "prefix_suffix", "connector",
-              "multibond", "dollar_homo", "listweights", "leftlist", "mixedorder", "multikind"]
+              "multibond", "dollar_homo", "listweights", "leftlist", "mixedorder", "multikind", "listhandover", "orderprefix"]
 
 
 def rand_molecule(rnd, archetype=None, small=True, families=None, palette=None, units=(1, 8)):
@@ -534,11 +551,11 @@ def rand_molecule(rnd, archetype=None, small=True, families=None, palette=None, 
                 elems.append(_plain(rnd, palette=pal))
         elems.append(_plain(rnd, palette=pal))
         return MolT(elems, None, a)
-    if a == "alternating" or a == "listweights":
+    if a in ("alternating", "listweights", "listhandover"):
         # two units A, B with full transition lists (4 descriptors, + end groups when end initiated)
         # descriptors order: A.<, A.>, B.<, B.>   a '>' open end picks the '<' of the other unit
         big, zero = spell(rnd, rnd.choice([7.0, 8.0, 10.0])), "0"
-        small_w = spell(rnd, rnd.choice([0.0, 1.0, 3.0, 0.5])) if a == "listweights" else "0"
+        small_w = spell(rnd, rnd.choice([0.0, 1.0, 3.0, 0.5])) if a != "alternating" else "0"
         lA_lt = ("l", [zero, small_w, zero, big])      # A.< open -> partner must be '>' : A.> (idx1) or B.> (idx3)
         lA_gt = ("l", [small_w, zero, big, zero])      # A.> open -> A.< (0) or B.< (2)
         lB_lt = ("l", [zero, big, zero, small_w])
@@ -555,6 +572,15 @@ def rand_molecule(rnd, archetype=None, small=True, families=None, palette=None, 
         else:
             return rand_molecule(rnd, "random", small, families, palette, units)
         st = StochT(DescT(">", did), [A, B], [], DescT("<", did), dist_for([A, B]), lay())
+        if a == "listhandover":
+            # a second object directly behind the first: the descriptor handed over carries a transition list of the FIRST object, which the
+            # second object's (list-free) left terminal must replace; 1 unit (2 slots), 2 units (4 slots, the stale list's length) or end groups too
+            n2 = rnd.choice([1, 2, 2])
+            reps2 = [_unit(rnd, D("<", _w(rnd, 0.3)), D(">", _w(rnd, 0.3)), palette=pal) for _ in range(n2)]
+            ends2 = [_end(rnd, D("<"), palette=pal)] if rnd.random() < 0.4 else []
+            closed = bool(ends2) and rnd.random() < 0.5
+            st2 = StochT(DescT(">", did, _w(rnd, 0.3)), reps2, ends2, None if closed else DescT("<", did), dist_for(reps2), lay())
+            return MolT([_plain(rnd, palette=pal), st, st2] + ([] if closed else [_plain(rnd, palette=pal)]), None, a)
         return MolT([_plain(rnd, palette=pal), st, _plain(rnd, palette=pal)], None, a)
     if a == "stepgrowth":
         AA = _unit(rnd, D("<", _w(rnd, 0.2)), D("<", _w(rnd, 0.2)), palette=pal, size=(2, 6))
@@ -629,6 +655,25 @@ def rand_molecule(rnd, archetype=None, small=True, families=None, palette=None, 
             return rand_molecule(rnd, "multibond", small, families, palette, units)
         st = StochT(None, [unit, unit2], [e1, e2], None, dist_for([unit, unit2]), lay())
         return MolT([st], None, a)
+    if a == "orderprefix":
+        # the prefix's open descriptor prescribes a double / triple bond while the left terminal is written without bond symbol:
+        # the first bond of the object must be made with the PREFIX descriptor's order, to a unit descriptor of that order
+        o = rnd.choice([2, 2, 3])
+        pal2 = [("C", 4, False)] * 6 + [("N", 3, False), ("O", 2, False)]
+        for _ in range(30):
+            try:
+                unit = make_token(rnd, [D("$", _w(rnd, 0.2)), D("$", _w(rnd, 0.2))], n_atoms=rnd.randint(2, 5), palette=pal2, orders=[o, 1], multi_p=0.0, ring_p=0.0)
+                unit2 = make_token(rnd, [D("$"), D("$")], n_atoms=rnd.randint(1, 4), palette=pal2, orders=[1, 1], multi_p=0.0, ring_p=0.0)
+                e1 = make_token(rnd, [D("$")], n_atoms=rnd.randint(1, 3), palette=pal2, orders=[o], multi_p=0.0, ring_p=0.0)
+                e2 = make_token(rnd, [D("$")], n_atoms=rnd.randint(1, 3), palette=pal2, orders=[1], multi_p=0.0, ring_p=0.0)
+                pre = _prefix_with_desc(rnd, DescT("$", did), o, pal2)
+                break
+            except RuntimeError:
+                continue
+        else:
+            return rand_molecule(rnd, "multibond", small, families, palette, units)
+        st = StochT(DescT("$", did), [unit, unit2], [e1, e2], None, dist_for([unit, unit2]), lay())
+        return MolT([pre, st], None, a)
     if a == "multibond":
         o = rnd.choice([2, 2, 3])
         pal2 = [("C", 4, False)] * 6 + [("N", 3, False), ("O", 2, False)]
